@@ -131,6 +131,7 @@ macro_rules! vcover {
 pub(crate) use vcover;
 
 pub mod model;
+pub mod shim;
 pub mod api;
 pub mod env;
 pub mod cachex;
